@@ -129,6 +129,9 @@ func genCF(r *rand.Rand, c *Case) {
 
 func esDocLine(r *rand.Rand) NDLine {
 	m := []JKV{kv("message", jS(genLine(r)))}
+	if r.Intn(5) == 0 { // a document with a field named like a bulk action (class doc-with-action-key)
+		m = append(m, kv(pick(r, []string{"index", "create", "update", "delete"}), ndJunk(r)))
+	}
 	for j := r.Intn(3); j > 0; j-- {
 		m = append(m, kv(pick(r, []string{"level", "host", "n", "tags", "@timestamp", "doc", "_index", "type"}), ndJunk(r)))
 	}
@@ -267,9 +270,17 @@ func ndEntries(c *Case) int {
 	if c.Proto == "ddcf" {
 		return len(c.Body.ND)
 	}
-	n, lbl := 0, false
+	n, lbl, source := 0, false, false
 	for _, l := range c.Body.ND {
-		if l.Doc == nil || l.Doc.K != "obj" {
+		if l.Doc == nil {
+			continue
+		}
+		if source {
+			source = false
+			n++
+			continue
+		}
+		if l.Doc.K != "obj" {
 			continue
 		}
 		act := ""
@@ -283,7 +294,7 @@ func ndEntries(c *Case) int {
 		case "delete", "update":
 			lbl = false
 		case "index", "create":
-			lbl = true
+			lbl, source = true, true
 		default:
 			if lbl {
 				n++
